@@ -164,13 +164,103 @@ impl Prop for C18 {
         vec![("fuzz_writer", 40_000)]
     }
 
+    fn extra(&self, tier: Tier, _seed: u64, ctx: &crate::runner::ExtraCtx) -> crate::runner::ExtraOut {
+        small_scope(tier, ctx.threads)
+    }
+
     fn run(&self, case: &Case, obs: &mut Obs) -> Check {
         let sorted = case.src.entries();
         let (seq, after_cut) = perturbed(&case.conf, &sorted, &case.perturbs);
+        judge_sequence(&case.conf, &seq, after_cut, &format!("{:?}", case.perturbs), obs)
+    }
+}
+
+/// Bounded-exhaustive: EVERY insert sequence of length <= L over a five-key alphabet (including the empty key), with
+/// small and block-filling values, for three layouts.
+pub fn small_scope(tier: Tier, threads: usize) -> crate::runner::ExtraOut {
+    use std::sync::atomic::{AtomicU64, Ordering};
+    let keys: Vec<Vec<u8>> = vec![vec![], vec![0], vec![0, 0], vec![1], vec![0xff]];
+    let max_len = tier.pick(5usize, 7);
+    let layouts = [
+        (WConf { codec: Codec::None, level: 0, block_size: None, interval: None, levels: 0 }, 2usize),
+        (WConf { codec: Codec::None, level: 0, block_size: Some(1024), interval: Some(1), levels: 2 }, 600),
+        (WConf { codec: Codec::None, level: 0, block_size: Some(1024), interval: None, levels: 1 }, 1100),
+    ];
+    let mut total = 0u64;
+    for l in 0..=max_len {
+        total += (keys.len() as u64).pow(l as u32);
+    }
+    let next = AtomicU64::new(0);
+    let done = AtomicU64::new(0);
+    let unsorted = AtomicU64::new(0);
+    let failure: std::sync::Mutex<Option<(Fail, serde_json::Value)>> = std::sync::Mutex::new(None);
+    std::thread::scope(|s| {
+        for _ in 0..threads {
+            s.spawn(|| loop {
+                let i = next.fetch_add(1, Ordering::Relaxed);
+                if i >= total || failure.lock().unwrap().is_some() {
+                    break;
+                }
+                // decode i into (length, digits)
+                let mut rem = i;
+                let mut len = 0usize;
+                loop {
+                    let c = (keys.len() as u64).pow(len as u32);
+                    if rem < c {
+                        break;
+                    }
+                    rem -= c;
+                    len += 1;
+                }
+                let mut seq: Entries = Vec::with_capacity(len);
+                for j in 0..len {
+                    let d = (rem % keys.len() as u64) as usize;
+                    rem /= keys.len() as u64;
+                    seq.push((keys[d].clone(), vec![j as u8]));
+                }
+                for (conf, vlen) in &layouts {
+                    let s2: Entries = seq.iter().map(|(k, v)| (k.clone(), vec![v[0]; *vlen])).collect();
+                    let mut obs = Obs::default();
+                    let r = crate::common::catch(|| judge_sequence(conf, &s2, false, "small-scope", &mut obs)).unwrap_or_else(|p| Err(Fail::new("c18:harness-panic", p)));
+                    if obs.classes.iter().any(|c| c == "seq:unsorted") {
+                        unsorted.fetch_add(1, Ordering::Relaxed);
+                    }
+                    done.fetch_add(1, Ordering::Relaxed);
+                    if let Err(f) = r {
+                        let mut g = failure.lock().unwrap();
+                        if g.is_none() {
+                            let ks: Vec<String> = seq.iter().map(|e| brief(&e.0)).collect();
+                            *g = Some((
+                                Fail::new(format!("{}:small-scope", f.signature), format!("insert sequence [{}] with {}-byte values ({}): {}", ks.join(", "), vlen, conf.label(), f.msg)),
+                                serde_json::json!({"SmallScopeSequence": i}),
+                            ));
+                        }
+                        return;
+                    }
+                }
+            });
+        }
+    });
+    let mut out = crate::runner::ExtraOut::default();
+    let d = done.into_inner();
+    out.evaluations = d;
+    out.nontrivial = unsorted.into_inner();
+    out.counters.insert("small_scope_sequences".into(), d);
+    out.samples.push(serde_json::json!({"kind": "small-scope", "keys": keys.iter().map(|k| brief(k)).collect::<Vec<_>>(), "max_len": max_len, "layouts": layouts.len(), "sequences_x_layouts": d}));
+    if let Some(f) = failure.into_inner().unwrap() {
+        out.violations.push(f);
+    }
+    out
+}
+
+/// The oracle of C18 on one insert sequence.
+pub fn judge_sequence(conf: &WConf, seq: &Entries, after_cut: bool, perturbs: &str, obs: &mut Obs) -> Check {
+    {
+        let case_conf = conf;
         // first position whose key is not strictly greater than its predecessor
         let first_bad = seq.windows(2).position(|w| w[0].0 >= w[1].0).map(|i| i + 1);
         // drive the writer, every call guarded
-        let mut w = Some(case.conf.builder().memory());
+        let mut w = Some(case_conf.builder().memory());
         let mut panicked_at: Option<(usize, String)> = None;
         for (j, (k, v)) in seq.iter().enumerate() {
             let wr = w.as_mut().unwrap();
@@ -218,7 +308,7 @@ impl Prop for C18 {
                     sig,
                     format!(
                         "no panic, but the finished file is not made of sorted blocks ({}; first out-of-order insert #{:?} key {}): {}",
-                        case.conf.label(),
+                        case_conf.label(),
                         first_bad,
                         first_bad.map(|i| brief(&seq[i].0)).unwrap_or_default(),
                         e
@@ -238,7 +328,7 @@ impl Prop for C18 {
             obs.class("seq:after-cut");
         }
         obs.nontrivial = first_bad.is_some();
-        obs.sample = Some(json!({"conf": case.conf.label(), "inserts": seq.len(), "perturbs": format!("{:?}", case.perturbs),
+        obs.sample = Some(json!({"conf": case_conf.label(), "inserts": seq.len(), "perturbs": perturbs,
             "first_out_of_order_insert": first_bad, "panicked_at": panicked_at.as_ref().map(|p| p.0)}));
         Ok(())
     }
